@@ -39,7 +39,7 @@ CHECKS["C24"] = {
 
 
 VM_FILES = ["vm/lib.go", "vm/corpus.go", "vm/corpus_wild_gen.go"]
-VM_GROUPS_Q = ["0[1-7]", "0[89]|1[0-4]", "1[5-9]|2[01]", "2[2-8]", "29|3[0-4]"]
+VM_GROUPS_Q = ["0[1-7]", "0[89]|1[0-4]", "1[5-9]|2[01]", "2[2-8]", "29|3[0-5]"]
 
 
 def vm_units(labels):
@@ -52,7 +52,7 @@ def vm_units(labels):
 CHECKS["C22"] = {
     "level": "other",
     "explanation": "The real compiler produces each program of a corpus of program shapes; the real Machine (ResolveResources/ResolveBalances/Execute, Funding.Take/TakeMax/Concat, Allotment.Allocate) is executed symbolically with symbolic amounts, caps, overdraft limits, rational portions and account balances of any sign. z3 decides for every value: posting amounts >= 0, statement asset, sum of postings == sent amount (for 'send [A *]': the reference definition of available funds), 'kept' yields no posting, tracked balances == initial + postings.",
-    "bounds": {"quick": "34 program shapes (in-order/allotment/max sources and destinations, overdraft clauses, send-all, kept, save, balance() variable, multi-send, repeated accounts); all numeric inputs unbounded", "thorough": "same corpus"},
+    "bounds": {"quick": "35 program shapes (in-order/allotment/max sources and destinations, overdraft clauses, send-all, kept, save, balance() variable, multi-send, repeated accounts); all numeric inputs unbounded", "thorough": "same corpus"},
     "outside": "programs outside the shape corpus; the ANTLR front end is run concretely (not symbolically); account names are concrete per shape",
     "assumptions": COMMON_ASSUME,
     "units": vm_units("^C22:"),
@@ -259,7 +259,8 @@ CHECKS["C28"] = {
     "assumptions": COMMON_ASSUME + ["SMT-LIB regular expressions generated from regexp/syntax (Go side) and from Python's sre parser (lexer rules) denote the same languages as the RE2 patterns they come from"],
     "units": [
         unit("./internal", ["core/c28.go"], "^Harness_C28_", QT, flags={"labels": "^(C28:|no-panic)"}, reach=["end"]),
-        unit("./internal/machine", ["machine/c28.go"], "^Harness_C28_", QT, flags={"labels": "^(C28:|no-panic)"}, reach=["end", "accepted", "rejected"]),
+        unit("./internal/machine", ["machine/c28.go"], "^Harness_C28_(account|asset|monetary)_value$", QT, flags={"labels": "^(C28:|no-panic)"}, reach=["end", "accepted", "rejected"]),
+        unit("./internal/machine", ["machine/c28.go"], "^Harness_C28_monetary_value_json", QT, flags={"labels": "^(C28:|no-panic)"}, reach=["end", "rejected"]),
         {"kind": "py", "module": "c28_lexer", "pkg": "pychecks", "files": [], "run": "c28_lexer", "tiers": QT, "reach": ["end"],
          "replay_unit": unit(CTRL_PKG, CTRL_FILES, "^Replay_C28_", QT)},
     ],
@@ -283,7 +284,7 @@ CHECKS["C30"] = {
 CHECKS["C29"] = {
     "level": "other",
     "explanation": "(a) Chart semantics: the real ChartOfAccounts.UnmarshalJSON + findAccountSchema against an independent declarative acceptance predicate evaluated on the JSON the chart was written in (a fixed sub-segment named like the address segment is taken, and only then; otherwise the variable sub-segment when its pattern matches; the last segment must land on an account node), for every chart of a bounded shape family and a symbolic address; the default metadata of the matched account is the reference's. (b) Enforcement: the real runLog/createTransaction/saveAccountMetadata/ValidateWithSchema/AccountsWithDefaultMetadata on the store model, enforcement mode strict/audit x schema version missing/known/unknown x transaction templates defined/used, the destination account carrying a symbolic segment: in strict mode an accepted write names an existing schema, its posting accounts are accepted by the chart, and a template is used when templates exist; a refusal carries the matching error and leaves no effect; audit mode only logs; chart default metadata is applied on the first insert of an account and never re-applied.",
-    "bounds": {"quick": CHART_SHAPES + "; depth 1; addresses of <= 3 segments of <= 3 bytes; (b) one chart (fixed, pattern-variable and nested fixed segments), 11 mode/version/template combinations", "thorough": "chart depth 2"},
+    "bounds": {"quick": CHART_SHAPES + "; depth 1; addresses of <= 3 segments of <= 3 bytes; (b) one chart (fixed, pattern-variable and nested fixed segments), 13 mode/version/template combinations (incl. a request naming a template and carrying its own script)", "thorough": "chart depth 2"},
     "outside": "charts outside the family; strings.Split of the address in (a); revert / metadata-only writes under a schema other than saveAccountMetadata; the interpreter runtime",
     "assumptions": COMMON_ASSUME + DBMODEL_ASSUME,
     "units": [
@@ -297,7 +298,7 @@ CHECKS["C29"] = {
 CHECKS["C27"] = {
     "level": "other",
     "explanation": "Decided part of 'never crashes': (a) every program of the 34-shape corpus, compiled by the real compiler, is executed by the real Machine through vm.Run with ANY typed variable values (amounts and numbers of any sign, portions n/d with any n and any d != 0, so also above 100% and negative) and any balances: no reachable panic, a failed run returns no (partial) result, a successful one returns every posting, the program counter only moves forward (the loop terminates within the executor's step bound on every path). (b) machine.NewValueFromString — the door for variable JSON and account metadata — on a symbolic string for every variable type (account, asset, string, number, monetary, portion; regexes, SplitN, big.Rat.SetString and FindStringSubmatch are encoded over SMT strings): no panic, an error carries no value, an accepted portion lies in [0,1].",
-    "bounds": {"quick": "34 program shapes; all numeric values unbounded; value strings of <= 6 bytes (portion <= 5, monetary 4+1+3)", "thorough": "same"},
+    "bounds": {"quick": "35 program shapes; all numeric values unbounded; value strings of <= 6 bytes (portion <= 5, monetary 4+1+3)", "thorough": "same"},
     "outside": "'compiling any byte string': the ANTLR ATN simulator and the generated parser cannot be executed on symbolic bytes within reach — compilation of arbitrary text is NOT decided; programs outside the corpus; SetVarsFromJSON's JSON layer",
     "assumptions": COMMON_ASSUME + ["FindStringSubmatch on a symbolic subject returns some decomposition of the subject along the pattern (Go's leftmost-first choice when it is unique, as for the repo's patterns)"],
     "units": [
